@@ -181,7 +181,8 @@ def build_call(L, tool, par, S, F, rec):
         return lambda: L.sum(S[0], start)
     if tool == "reduce":
         if par["init"]:
-            return lambda: L.reduce(F("func"), S[0], Node("initial"))
+            init_ = None if par.get("inone") else Node("initial")
+            return lambda: L.reduce(F("func"), S[0], init_)
         return lambda: L.reduce(F("func"), S[0])
     if tool in ("min", "max"):
         fn = getattr(L, tool)
@@ -275,7 +276,7 @@ class Obs:
 NONE_TOOLS = ("zip", "anext")     # tools whose items with key 0 are the object None
 
 
-def noneify(log, dflt_none=False):
+def noneify(log, dflt_none=False, none_nodes=()):
     """Expected log with every key-0 item replaced by None (what the real source hands out);
     dflt_none: the default object of the call is None as well."""
     def conv(v):
@@ -283,6 +284,21 @@ def noneify(log, dflt_none=False):
             if set(v) == {"s", "p", "k"} and v["k"] == 0:
                 return None
             if dflt_none and v == {"f": "default", "a": []}:
+                return None
+            if v.get("f") in none_nodes and v.get("a") == []:
+                return None
+            return {a: conv(b) for a, b in v.items()}
+        if isinstance(v, list):
+            return [conv(x) for x in v]
+        return v
+    return [conv(e) for e in log]
+
+
+def noneify_nodes(log, names):
+    """Expected log with the free constructors of the given names replaced by None (items untouched)."""
+    def conv(v):
+        if isinstance(v, dict):
+            if v.get("f") in names and v.get("a") == []:
                 return None
             return {a: conv(b) for a, b in v.items()}
         if isinstance(v, list):
